@@ -1,6 +1,6 @@
 SPECIFICATION ASpec
 CONSTANTS
-  Labels = {"", "probe00"}
+  Labels = {"", "probe00", "a"}
 INVARIANT Labelled
 INVARIANT SourceFrame
 INVARIANT TargetComplete
